@@ -106,11 +106,8 @@ def set (c : Ctx) (k : String) (v : Value) : Ctx :=
 
 def contains (c : Ctx) (k : String) : Bool := (get c k).isSome
 
-/-- keys strictly increasing -/
-def WF : Ctx → Prop
-  | [] => True
-  | [_] => True
-  | (k, _) :: (k', v') :: c => k < k' ∧ WF ((k', v') :: c)
+/-- keys strictly increasing (the `BTreeMap` iteration order) -/
+def WF (c : Ctx) : Prop := (c.map Prod.fst).Pairwise (· < ·)
 
 end Ctx
 
@@ -176,6 +173,20 @@ def allSame (t : FType) : List Value → Bool
 def typeOfEntries : List (String × Value) → List (String × FType)
   | [] => []
   | (k, v) :: es => (k, typeOf v) :: typeOfEntries es
+end
+
+mutual
+/-- Every context inside the value has strictly increasing keys. -/
+def WF : Value → Prop
+  | .list vs => WFList vs
+  | .ctx es => Ctx.WF es ∧ WFEntries es
+  | _ => True
+def WFList : List Value → Prop
+  | [] => True
+  | v :: vs => WF v ∧ WFList vs
+def WFEntries : List (String × Value) → Prop
+  | [] => True
+  | (_, v) :: es => WF v ∧ WFEntries es
 end
 
 /-- The value interface `coerced` works through. -/
